@@ -1,12 +1,14 @@
 #!/bin/bash
 # usage: seedtest2.sh <patchdir> <prop> [more props...]
 # Like seedtest.sh, but never touches /repo's working tree: the seeded change lives in a scratch worktree and the
+# (SEEDSLOT=<n> selects an independent set of scratch paths, so several can run side by side.)
 # checks run from a scratch copy of /verif whose harness depends on that worktree.  Safe to use while background
 # runs (`vp run`) are using /repo.  One at a time (fixed scratch paths).
 set -u
 PD=$1; shift
-WT=/tmp/seedwt; VC=/tmp/verifcopy
-exec 9>/tmp/seedtest2.lock; flock 9
+SLOT=${SEEDSLOT:-}
+WT=/tmp/seedwt$SLOT; VC=/tmp/verifcopy$SLOT
+exec 9>/tmp/seedtest2$SLOT.lock; flock 9
 git -C /repo worktree remove --force $WT >/dev/null 2>&1; rm -rf $WT; git -C /repo worktree prune
 git -C /repo worktree add --detach $WT HEAD -f >/dev/null 2>&1
 cd $WT
@@ -29,7 +31,7 @@ cd $VC
 for p in "$@"; do
   OUT=$(./check $p 2>/dev/null | grep -E "^VIOLATION|^OK|^KNOWN" | head -3 | tr '\n' ' ')
   echo "check $p: $OUT"
-  mkdir -p /tmp/seedtest2_out; cp -f $VC/out/$p/violation_000.json /tmp/seedtest2_out/$p.violation_000.json 2>/dev/null
-  cp -f $VC/evidence/$p.json /tmp/seedtest2_out/$p.evidence.json 2>/dev/null
+  mkdir -p /tmp/seedtest2_out$SLOT; cp -f $VC/out/$p/violation_000.json /tmp/seedtest2_out$SLOT/$p.violation_000.json 2>/dev/null
+  cp -f $VC/evidence/$p.json /tmp/seedtest2_out$SLOT/$p.evidence.json 2>/dev/null
 done
 cd /; git -C /repo worktree remove --force $WT; git -C /repo worktree prune
